@@ -129,6 +129,18 @@ def groupOf (groups : List (Nat × Nat)) (ibands : List Nat) (ib : Nat) : Option
 def tabBands {V : Type} (groups : List (Nat × Nat)) (ibands : List Nat) (values : Nat × Nat → V) : List (Option V) :=
   ibands.map (fun ib => (groupOf groups ibands ib).map values)
 
+/-- `np.unique(ibands)`: ascending, without repetitions -/
+def insertUnique (x : Nat) : List Nat → List Nat
+  | [] => [x]
+  | y :: l => if x < y then x :: y :: l else if x = y then y :: l else y :: insertUnique x l
+
+def uniqueSorted (l : List Nat) : List Nat := l.foldr insertUnique []
+
+/-- the SEEDED variant: the selection is passed through `np.unique` first ('a band listed twice is tabulated once') -/
+def tabBandsUnique {V : Type} (groups : List (Nat × Nat)) (ibands : List Nat) (values : Nat × Nat → V) :
+    List (Option V) :=
+  tabBands groups (uniqueSorted ibands) values
+
 /-! ### components of a tensor-valued array -/
 
 /-- an array with `lead` leading axes (k, band) followed by `ndim` tensor axes of length 3, as a function of the
@@ -297,6 +309,13 @@ def handle : List String → String
       let groups := gs.map (fun l => (l.getD 0 0, l.getD 1 0))
       showListWith (fun o => match o with | some (n : Nat × Nat) => toString n.1 ++ "," ++ toString n.2 | none => "N") ";"
         (tabBands groups ib id)
+    | _, _ => "bad-op"
+  | ["groupsunique", gs, ib] =>
+    match parseNatss? gs, parseNats? ib with
+    | some gs, some ib =>
+      let groups := gs.map (fun l => (l.getD 0 0, l.getD 1 0))
+      showListWith (fun o => match o with | some (n : Nat × Nat) => toString n.1 ++ "," ++ toString n.2 | none => "N") ";"
+        (tabBandsUnique groups ib id)
     | _, _ => "bad-op"
   | ["complist", d] =>
     match parseNat? d with
